@@ -90,8 +90,8 @@ class LeanFailure(Exception):
 
 def _lean_sources():
     """The Lean files that are part of the build: everything imported from Rbql.lean, the driver, the audit file."""
-    files = [LEAN_DIR / 'Rbql.lean', LEAN_DIR / 'Audit.lean']
-    root = (LEAN_DIR / 'Rbql.lean').read_text()
+    files = [LEAN_DIR / 'Rbql.lean', LEAN_DIR / 'Audit.lean', LEAN_DIR / 'RbqlGen.lean', LEAN_DIR / 'AuditGen.lean']
+    root = _roots_text()
     for m in re.finditer(r'^import\s+(Rbql(?:\.\w+)+)\s*$', root, re.M):
         files.append(LEAN_DIR / (m.group(1).replace('.', '/') + '.lean'))
     files += sorted((LEAN_DIR / 'Driver').glob('*.lean'))
@@ -103,9 +103,20 @@ def _lean_sources():
 def _sources_hash():
     h = hashlib.sha256()
     for p in _lean_sources():
+        if 'Generated' in p.parts:
+            continue
         h.update(str(p.relative_to(LEAN_DIR)).encode())
         h.update(p.read_bytes())
     return h.hexdigest()
+
+
+GEN_PROPS = ('C16',)     # properties whose theorem file depends on source-derived (regenerated) Lean files: built separately
+
+
+def _roots_text():
+    t = (LEAN_DIR / 'Rbql.lean').read_text()
+    g = LEAN_DIR / 'RbqlGen.lean'
+    return t + ('\n' + g.read_text() if g.exists() else '')
 
 
 def strip_lean_comments(text):
@@ -137,7 +148,7 @@ def theorem_names(prop):
     p = LEAN_DIR / 'Rbql' / 'Theorems' / (prop + '.lean')
     if not p.exists():
         return []
-    if not re.search(r'^import\s+Rbql\.Theorems\.%s\s*$' % prop, (LEAN_DIR / 'Rbql.lean').read_text(), re.M):
+    if not re.search(r'^import\s+Rbql\.Theorems\.%s\s*$' % prop, _roots_text(), re.M):
         return []
     txt = strip_lean_comments(p.read_text())
     return re.findall(r'^theorem\s+(' + prop + r'_\w+)', txt, re.M)
@@ -146,7 +157,7 @@ def theorem_names(prop):
 def all_theorems():
     res = {}
     d = LEAN_DIR / 'Rbql' / 'Theorems'
-    root = (LEAN_DIR / 'Rbql.lean').read_text()
+    root = _roots_text()
     for p in sorted(d.glob('C*.lean')):
         if re.search(r'^import\s+Rbql\.Theorems\.%s\s*$' % p.stem, root, re.M):   # only what is part of the build
             res[p.stem] = theorem_names(p.stem)
@@ -166,14 +177,16 @@ def generate_audit():
     thms = all_theorems()
     lines = ['-- GENERATED by harness/common.py from Rbql/Theorems/*.lean; do not edit',
              'import Rbql']
+    glines = ['-- GENERATED by harness/common.py: audit of the theorems that depend on source-derived Lean files', 'import RbqlGen']
     for prop, names in thms.items():
         for n in names:
-            lines.append('#print axioms Rbql.%s' % n)
+            (glines if prop in GEN_PROPS else lines).append('#print axioms Rbql.%s' % n)
     write_if_changed(LEAN_DIR / 'Audit.lean', '\n'.join(lines) + '\n')
+    write_if_changed(LEAN_DIR / 'AuditGen.lean', '\n'.join(glines) + '\n')
     return thms
 
 
-def lean_build_and_audit(generated_hook=None):
+def lean_build_and_audit(generated_hook=None, prop=None):
     """Build the Lean project (under a file lock) and audit axioms. Returns dict
     {theorem_name: [axioms]}. Raises LeanFailure when the build, the forbidden-token grep or the
     audit fails. Results are cached under lean/.lake keyed by the hash of all Lean sources."""
@@ -192,7 +205,7 @@ def lean_build_and_audit(generated_hook=None):
                 if c.get('key') == key:
                     if c.get('failure'):
                         raise LeanFailure(c['failure'][0], c['failure'][1])
-                    return c['axioms']
+                    return _with_generated(c['axioms'], prop)
             except (ValueError, KeyError):
                 pass
         failure = None
@@ -221,7 +234,32 @@ def lean_build_and_audit(generated_hook=None):
         cache.write_text(json.dumps({'key': key, 'axioms': axioms, 'failure': failure}))
         if failure:
             raise LeanFailure(failure[0], failure[1])
+        return _with_generated(axioms, prop)
+
+
+def _parse_axioms(text, axioms):
+    out = text.replace('\n  ', ' ').replace('\n ', ' ')
+    for m in re.finditer(r"'Rbql\.(\w+)' depends on axioms: \[([^\]]*)\]", out):
+        axioms[m.group(1)] = [a.strip() for a in m.group(2).split(',') if a.strip()]
+    for m in re.finditer(r"'Rbql\.(\w+)' does not depend on any axioms", out):
+        axioms[m.group(1)] = []
+
+
+def _with_generated(axioms, prop):
+    """For a property whose theorems depend on source-derived Lean files, build and audit that part now (it changes
+    with /repo, so it is never cached). Its failure concerns only that property."""
+    if prop not in GEN_PROPS:
         return axioms
+    axioms = dict(axioms)
+    r = subprocess.run(['lake', 'build', 'RbqlGen'], cwd=str(LEAN_DIR), stdout=subprocess.PIPE, stderr=subprocess.STDOUT, text=True)
+    if r.returncode != 0:
+        errs = [l for l in r.stdout.split('\n') if l.startswith('error') or 'is false' in l or 'Generated.' in l]
+        raise LeanFailure('lake-build (source-derived obligations)', '\n'.join(errs)[-3000:] or r.stdout[-3000:])
+    r = subprocess.run(['lake', 'env', 'lean', 'AuditGen.lean'], cwd=str(LEAN_DIR), stdout=subprocess.PIPE, stderr=subprocess.STDOUT, text=True)
+    if r.returncode != 0:
+        raise LeanFailure('audit (source-derived obligations)', r.stdout[-3000:])
+    _parse_axioms(r.stdout, axioms)
+    return axioms
 
 
 def proof_status(prop, axioms):
